@@ -7,5 +7,6 @@ for c in C01 C02 C03 C04 C05 C06 C07 C08 C09 C10 C11 C12 C13 C14 C15 C16 C17 C18
   out=$(./check $c --tier $tier 2>&1); rc=$?
   e=$(date +%s)
   echo "$c rc=$rc $((e-s))s $(echo "$out" | grep -c VIOLATION) violations"
+  echo "$out" | grep "note: conjunct of" | cut -c1-300
   if [ $rc -ne 0 ]; then echo "$out" | tail -5 | cut -c1-300; fi
 done
